@@ -32,6 +32,38 @@ const STRAIGHT_MIPS: &str = include_str!("../corpus/mips_straight.txt");
 const STRAIGHT_PPC: &str = include_str!("../corpus/ppc_straight.txt");
 const STRAIGHT_A64: &str = include_str!("../corpus/aarch64_straight.txt");
 
+const INTRINSIC_X86: &str = include_str!("../corpus/x86_intrinsic.txt");
+const INTRINSIC_AMD64: &str = include_str!("../corpus/amd64_intrinsic.txt");
+const INTRINSIC_MIPS: &str = include_str!("../corpus/mips_intrinsic.txt");
+const INTRINSIC_A64: &str = include_str!("../corpus/aarch64_intrinsic.txt");
+
+/// units the lifter does not model: with `unsupported_are_intrinsics` they lift to one
+/// intrinsic and fall through (found once by corpusprobe; PPC has none, its translator
+/// returns an error even under that option)
+pub fn intrinsic_units(arch: Arch) -> Vec<String> {
+    let text = match arch {
+        Arch::X86 => INTRINSIC_X86,
+        Arch::Amd64 => INTRINSIC_AMD64,
+        Arch::Mips | Arch::Mipsel => INTRINSIC_MIPS,
+        Arch::Ppc => "",
+        _ => INTRINSIC_A64,
+    };
+    text.lines()
+        .filter(|l| !l.trim().is_empty())
+        .map(|l| {
+            if arch == Arch::Mipsel {
+                let mut b = asm::unhex(l.trim());
+                for w in b.chunks_mut(4) {
+                    w.reverse();
+                }
+                asm::hex(&b)
+            } else {
+                l.trim().to_string()
+            }
+        })
+        .collect()
+}
+
 /// straight-line units harvested from falcon's own lifter tests (hex, in the byte
 /// order of `arch`): more instruction variety than the assembler forms
 pub fn straight_units(arch: Arch) -> Vec<String> {
@@ -93,6 +125,10 @@ pub struct Case {
     /// byte offsets (a section seam may fall inside an instruction)
     #[serde(default)]
     pub section_cuts: Vec<usize>,
+    /// the function is lifted at this slot's address (not necessarily the lowest one: code
+    /// in front of the entry is reached through backward branches)
+    #[serde(default)]
+    pub entry_slot: usize,
 }
 
 pub struct Outcome {
@@ -245,6 +281,10 @@ pub fn layout(case: &Case) -> Layout {
     }
 }
 
+fn entry_addr(case: &Case, l: &Layout) -> u64 {
+    l.addrs[case.entry_slot.min(l.addrs.len() - 1)]
+}
+
 fn mapped(l: &Layout, a: u64) -> bool {
     l.islands.iter().any(|(s, d)| a >= *s && a - *s < d.len() as u64)
 }
@@ -262,7 +302,7 @@ fn reachable(case: &Case, l: &Layout) -> BTreeSet<u64> {
     let n = l.slots.len();
     let index_of: BTreeMap<u64, usize> = l.addrs.iter().cloned().enumerate().map(|(i, a)| (a, i)).collect();
     let mut seen = BTreeSet::new();
-    let mut work: Vec<u64> = vec![l.addrs[0]];
+    let mut work: Vec<u64> = vec![entry_addr(case, l)];
     for &(h, t, _) in &case.manual_edges {
         work.push(l.addrs[h.min(n - 1)]);
         work.push(l.addrs[t.min(n - 1)]);
@@ -520,7 +560,7 @@ fn initial_state(case: &Case, l: &Layout, seed: u64, extra: &BTreeMap<String, us
     for (i, b) in data.iter().enumerate() {
         mem.stored.insert(DATA + i as u64, *b);
     }
-    RState { scalars, mem }
+    RState { scalars, mem, intrinsics_are_nops: true }
 }
 
 /// Where does an executed `Branch` to `a` continue inside the recovered function? The
@@ -614,7 +654,7 @@ fn run_reference(
     let mut opts = Options::default();
     opts.set_unsupported_are_intrinsics(case.intrinsics);
     let mut events = Vec::new();
-    let mut pc = l.addrs[0];
+    let mut pc = entry_addr(case, l);
     let mut raw = 0;
     let mut units_run = 0;
     let end;
@@ -831,6 +871,7 @@ pub fn execute(case: &Case) -> Outcome {
     }
     log.str(arch.name());
     log.u64(case.base);
+    log.u64(case.entry_slot as u64);
     for (a, d) in &l.islands {
         log.u64(*a);
         log.bytes(d);
@@ -871,7 +912,8 @@ pub fn execute(case: &Case) -> Outcome {
     let cap = if arch.is_mips() { None } else { case.window_cap };
     falcon::verif::set_window_cap(cap.unwrap_or(usize::MAX));
     let t = arch.translator();
-    let lifted = catch(|| t.translate_function_extended(mem.as_dyn(), l.addrs[0], &opts));
+    let entry = entry_addr(case, &l);
+    let lifted = catch(|| t.translate_function_extended(mem.as_dyn(), entry, &opts));
     falcon::verif::set_window_cap(usize::MAX);
     if cap.is_some() {
         c.inc("fault.window-cap");
@@ -973,8 +1015,8 @@ pub fn execute(case: &Case) -> Outcome {
         .collect();
     // what the entry unit lifts to on its own: the address its first IL instruction carries
     // (AArch64 branches lift to an empty graph: then the entry block cannot be identified by address)
-    let entry_first: Option<u64> = if unit_fully_mapped(&l, l.addrs[0]) {
-        match catch(|| t.translate_block(&l.units[&l.addrs[0]], l.addrs[0], &opts)) {
+    let entry_first: Option<u64> = if unit_fully_mapped(&l, entry) {
+        match catch(|| t.translate_block(&l.units[&entry], entry, &opts)) {
             Ok(Ok(r)) => r.instructions().first().and_then(|(_, g)| {
                 g.entry()
                     .and_then(|e| g.block(e).ok())
@@ -1437,6 +1479,17 @@ pub fn generate(run_seed: u64, index: u64) -> Case {
     } else {
         (region + rng.below(4096)) & !(align - 1)
     };
+    let intrinsics = rng.chance(1, 2);
+    if intrinsics && rng.chance(1, 2) {
+        let units = intrinsic_units(arch);
+        if !units.is_empty() {
+            for i in 0..n - 1 {
+                if matches!(slots[i], Slot::Op { .. } | Slot::Pad(_)) && rng.chance(1, 8) {
+                    slots[i] = Slot::Raw(rng.pick(&units).clone());
+                }
+            }
+        }
+    }
     let mut case = Case {
         arch,
         slots,
@@ -1451,10 +1504,14 @@ pub fn generate(run_seed: u64, index: u64) -> Case {
         window_cap: None,
         manual_edges: Vec::new(),
         state_seeds: vec![rng.next(), rng.next()],
-        intrinsics: rng.chance(1, 2),
+        intrinsics,
         fault_free,
         section_cuts: Vec::new(),
+        entry_slot: 0,
     };
+    if rng.chance(1, 5) {
+        case.entry_slot = rng.usize_below(n);
+    }
     if (case.mem_impl == "backing" || case.mem_impl == "layered") && rng.chance(1, 2) {
         for _ in 0..rng.range(1, 4) {
             case.section_cuts.push(rng.range(1, 300) as usize);
@@ -1596,6 +1653,9 @@ pub fn minimise(case: &Case, class: &str) -> Case {
     let mut c = best.clone();
     c.section_cuts.clear();
     attempt!(c);
+    let mut c = best.clone();
+    c.entry_slot = 0;
+    attempt!(c);
     if best.mem_impl != "sim-own" {
         let mut c = best.clone();
         c.mem_impl = "sim-own".into();
@@ -1631,6 +1691,9 @@ pub fn minimise(case: &Case, class: &str) -> Case {
         c.manual_edges = c.manual_edges.iter().map(|&(h, t, g)| (if h > i { h - 1 } else { h }, if t > i { t - 1 } else { t }, g)).collect();
         c.into_delay = c.into_delay.iter().filter(|x| **x != i).map(|x| if *x > i { x - 1 } else { *x }).collect();
         c.mid_targets = c.mid_targets.iter().filter(|x| x.0 != i).map(|x| if x.0 > i { (x.0 - 1, x.1) } else { *x }).collect();
+        if c.entry_slot > i {
+            c.entry_slot -= 1;
+        }
         c.restore = c.restore.iter().map(|&(s, w)| (if s > i { s - 1 } else { s }, w)).collect();
         if !attempt!(c) {
             i += 1;
